@@ -155,7 +155,7 @@ func c20SchedMineOne(sc c20Scenario) ([]c20Op, int) {
 		id := goid()
 		c20SchedProcs.Store(id, &schedProc{rec: &rec})
 		defer c20SchedProcs.Delete(id)
-		status = doHTTP(e.srv, q).Code
+		status = c20Serve(e.srv, q)
 	}()
 	<-done
 	var ops []c20Op
@@ -185,7 +185,7 @@ func TestC20SchedMine(t *testing.T) {
 	index := map[string]int{}
 	for _, sc := range c20Scenarios() {
 		ops, status := c20SchedMineOne(sc)
-		if status >= 500 || status == 404 {
+		if (status >= 500 || status == 404) && !strings.HasSuffix(sc.Name, "failwrite") {
 			rep.Break("scenario %q answered %d while mining schedule points", sc.Name, status)
 			return
 		}
@@ -319,7 +319,7 @@ func c20RunSched(s c20Sched, progs []c20SchedProg, scen map[string]c20Scenario) 
 			close(ready)
 			p.arrive <- "start:"
 			<-p.grant
-			p.status = doHTTP(e.srv, q).Code
+			p.status = c20Serve(e.srv, q)
 			close(p.done)
 		}()
 		<-ready
@@ -581,7 +581,7 @@ func TestC20RacePairs(t *testing.T) {
 			q := scs[i].Req(e)
 			names = append(names, scs[i].Name)
 			wg.Add(1)
-			go func() { defer wg.Done(); <-start; doHTTP(e.srv, q) }()
+			go func() { defer wg.Done(); <-start; c20Serve(e.srv, q) }()
 		}
 		close(start)
 		done := make(chan struct{})
